@@ -16,7 +16,7 @@ Observation point: `ModeWrapper(<stack with seeded sample wrappers>, mode)[i]`  
                 call): outputs of indices that reach the seeded layer with different indices are pairwise different;
                 seeded mixup with p=1: no three indices share the mixing weight decoded from the label   -> same-stream:<wrapper>
                 draw probes (the seeded layer wraps a transform that returns its raw draws: 6 rng.random() + 3 64-bit integers):
-                the raw 64-bit draws of indices reaching the seeded layer with different indices share < 2 values
+                the raw 64-bit draws of ANY view of indices reaching the seeded layer with different indices share < 2 values (multi-view: 1-3 recording configs)
                 (a stream that is a shifted copy of a neighbour's shares most)                          -> streams-overlap:<wrapper>
                 wrappers serving two items from one draw (x + semseg, x + class): item k of index i requested through the modes
                 "<a>", "<b>", "<b> <a>", with index is bit-identical to the item in the fused mode "<a> <b>"   -> form-dependent:<wrapper>
@@ -82,8 +82,8 @@ ASSUMPTIONS = [
     "false-alarm bound per pair < 1e-100) and for the mixup weight (Beta(a, a), a >= 1: density <= 1.5, float32 label; three "
     "indices sharing one weight: < C(10,3) * (1.5 * 2^-23)^2 < 4e-12 per case); for crop / flip / colour pipelines (BYOL, Minaug, MUGS) "
     "whose observable outputs are discrete after rounding it is recorded as evidence (index-sensitive tables), never judged",
-    "draw probes: two independent streams share one 53-bit draw prefix with probability < (10*18)^2 * 2^-53 < 4e-12 per case; a verdict needs "
-    "two shared values (< 1e-22)",
+    "draw probes: two independent streams share one 53-bit draw prefix with probability < (12*54)^2 * 2^-53 < 5e-11 per case (up to 3 recording configs x 2 views x 9 draws per index); a verdict needs "
+    "two shared values (< 1e-20)",
     "decision probes: MUGSMultiViewWrapper records its weak/strong choice for the global student views in ctx['is_weak_global_aug'] "
     "(probability 1/2 per index, documented in its source as rng.random() < 0.5); over a window of 32 indices served by 32 different "
     "per-index streams the vector is constant with probability 2^-31 < 5e-10 per case; if the key is absent the clause is not judged "
@@ -96,6 +96,8 @@ ASSUMPTIONS = [
     "second instance is constructed with decoy transforms, the final ones are assigned before the first request, and it must equal the "
     "directly constructed reference instance. MUGSMultiViewWrapper keeps its pipelines twice (attribute + list) and is not reconfigured; "
     "n_views of a multi-view config is not changed after construction",
+    "a returned sample belongs to the caller: after comparing a history observation the harness overwrites the returned tensors in place "
+    "(what an in-place normalisation of the consumer does); a later request must not be affected (the root dataset returns fresh copies)",
     "seed sensitivity (another seed gives another table) is evidence, never a verdict",
     "which ModeWrapper mode an item is requested through is not part of (data, config, seed, i): the same item of the same index must "
     "agree across modes (ctx is not requested in this comparison)",
@@ -184,7 +186,7 @@ def gen_cases(run):
     n_stack = run.n(108, 16 * 1000)
     n_common = run.n(8, 16 * 30)
     n_fused = run.n(10, 16 * 60)
-    n_draws = run.n(16, 16 * 100)
+    n_draws = run.n(20, 16 * 100)
     n_dec = run.n(2, 16 * 4)
     plan = ["probe"] * n_probe + ["stack"] * n_stack + ["common"] * n_common + ["fused"] * n_fused + ["draws"] * n_draws + ["decisions"] * n_dec
     rng.shuffle(plan)
@@ -266,7 +268,10 @@ def _history(spec, m):
             seq_a.append(i)                       # immediate repeat
         if r.random() < 0.3:
             seq_a += [r.randrange(m), i]          # interleaved with another index
-    seq_a = [(i - m) if r.random() < 0.15 else i for i in seq_a[:5 * m]]
+    seq_a = seq_a[:5 * m]
+    if not any(a == b for a, b in zip(seq_a, seq_a[1:])):
+        seq_a.append(seq_a[-1])                   # at least one immediate repeat in every history
+    seq_a = [(i - m) if r.random() < 0.15 else i for i in seq_a]
     pre_b = [r.randrange(m) for _ in range(r.choice([0, 1, 3]))]
     seq_b = list(range(m - 1, -1, -1))
     if r.random() < 0.5:
@@ -296,6 +301,22 @@ def _worker_init(mw, spec):
     if S.has_scheduled(spec["layers"]):
         return functools.partial(mw.worker_init_fn, batch_size=S.HUGE_BATCH, updates=5)
     return mw.worker_init_fn
+
+
+def _scramble(out):
+    """what an in-place consumer does with a returned sample (normalise / augment the tensors it was handed): overwrite every
+    returned tensor after it was compared. A wrapper that hands out the same tensor objects again is then visible."""
+    if torch.is_tensor(out):
+        try:
+            out.copy_(-out - 1)
+        except Exception:  # noqa: BLE001 - expanded views / non-writable tensors are left alone
+            pass
+    elif isinstance(out, (list, tuple)):
+        for v in out:
+            _scramble(v)
+    elif isinstance(out, dict):
+        for v in out.values():
+            _scramble(v)
 
 
 def _norm_idx(i, m):
@@ -391,8 +412,10 @@ def evaluate(spec, stats=None, loaders=True, light=False, codes=None):
             bump("history_observations_compared")
             if canon_value(out) != R[j]:
                 how = "on an immediate repeat" if prev == j else "on a later request in permuted order"
-                return impure(f"{how} on the same instance (request mw[{i}])", j)
+                return impure(f"{how} on the same instance (request mw[{i}]; the tensors returned by earlier history requests were overwritten in place "
+                              f"by the harness after they had been compared, as an in-place consumer would)", j)
             prev = j
+            _scramble(out)
 
         # ---- second instance, other global state, other order, other request forms
         B, f = build(g2, spec["burn"], "B")
@@ -413,6 +436,7 @@ def evaluate(spec, stats=None, loaders=True, light=False, codes=None):
             bump("second_instance_observations_compared")
             if canon_value(out) != R[i]:
                 return impure(f"on a second instance built under global seed {g2}{RECONF_NOTE if spec.get('reconf') else ''}, requested in the order {seq_b} after {pre_b}", i)
+            _scramble(out)
         for kind, arg in forms:
             req = list(arg) if kind == "list" else slice(arg[0], arg[1], arg[2])
             idxs = list(arg) if kind == "list" else list(range(m))[req]
